@@ -73,6 +73,30 @@ def declare(spec):
                   "and self.slot_size == self.next_slot_sizes[1 % len(self.slots)]")],
         props=["C12"])
 
+    # ---- constructors: the tables the generator runs over are what the user declared (C12)
+    add(spec, "Slotted.__init__", types={"slots": "list:NumList", "slot_sizes": "list:IntList", "capacitated": "bool", "preemption": "orfalse:str", "offset": "num"},
+        requires=["len(slots) > 0 and len(slot_sizes) == len(slots)", "forall_in(slots, lambda b: is_fin(b))", "is_fin(offset)"],
+        modifies=["*"], allocates=True, raises=[("ValueError", "True")],
+        ensures=[
+            ("C12:the-slot-table-repeats-after-its-last-slot", "self.cyclelength == slots[len(slots) - 1] and ref_eq(self.slots, slots) and self.offset == offset"),
+            ("C12:the-size-table-is-the-declared-one-rotated-so-that-slot-k-gets-the-k-th-size",
+             "len(self.next_slot_sizes) == len(slot_sizes) and forall_int(lambda k: implies(0 <= k and k < len(slot_sizes), "
+             "self.next_slot_sizes[(k + 1) % len(slot_sizes)] == slot_sizes[k]), trigger=lambda k: slot_sizes[k])"),
+            ("C12:options-are-kept", "self.capacitated == capacitated and self.preemption == preemption and self.c == 0 and self.schedule_type == 'slotted'"),
+            ("C12:a-valid-slot-configuration", "len(self.slots) > 0 and len(self.next_slot_sizes) == len(self.slots) and is_fin(self.offset) and self.offset >= 0 and is_fin(self.cyclelength)"),
+        ],
+        props=["C12"])
+    add(spec, "Schedule.__init__", types={"numbers_of_servers": "list:IntList", "shift_end_dates": "list:NumList", "preemption": "orfalse:str", "offset": "num"},
+        requires=["len(shift_end_dates) > 0 and len(numbers_of_servers) == len(shift_end_dates)", "forall_in(shift_end_dates, lambda b: is_fin(b))", "is_fin(offset)"],
+        modifies=["*"], allocates=True, raises=[("ValueError", "True")],
+        ensures=[
+            ("C12:the-timetable-repeats-after-its-last-shift-end",
+             "self.cyclelength == shift_end_dates[len(shift_end_dates) - 1] and ref_eq(self.shift_end_dates, shift_end_dates) "
+             "and ref_eq(self.numbers_of_servers, numbers_of_servers) and self.offset == offset"),
+            ("C12:options-are-kept", "self.preemption == preemption and self.schedule_type == 'schedule' and is_fin(self.offset) and self.offset >= 0"),
+        ],
+        props=["C12"])
+
 
 def declare_node_side(spec):
     """shift changes at a node (C12 / C04): kill_server, add_new_servers, take_servers_off_duty, change_shift"""
